@@ -50,9 +50,11 @@ def element_classes(ns: Dict[str, Any]):
                     return self
 
                 def set_lower_limits(self, **kw):
+                    self.__dict__.setdefault("lower", {}).update(kw)
                     return self
 
                 def set_upper_limits(self, **kw):
+                    self.__dict__.setdefault("upper", {}).update(kw)
                     return self
 
                 def impedance(self, f):
